@@ -1,5 +1,5 @@
 (* Tie between the provider's size / length guards (translated on every run) and the model. *)
-From Coq Require Import ZArith Bool Lia List String.
+From Coq Require Import ZArith Bool Lia List String ZifyBool.
 From SV Require Import Parser.Protocol Resolve.Op Batch.Files Gen.Kernels GenTie.Window GenTie.Table.
 Import ListNotations.
 Local Open Scope Z_scope.
@@ -13,16 +13,14 @@ Definition limits_of (p : proto) : limits :=
 Theorem provider_uriGuard_tie p {A} (r : ref A) :
   small (MaxCasURILength p) -> gen_provider_uriGuard p (uri_len r) = negb (uri_ok (limits_of p) r).
 Proof.
-  intros Hs. unfold gen_provider_uriGuard, uri_ok, limits_of, to_int. cbn [l_uri_len]. rewrite small_int64 by assumption.
-  rewrite Z.gtb_ltb, Z.leb_antisym, negb_involutive. reflexivity.
+  intros Hs. unfold gen_provider_uriGuard, uri_ok, limits_of. cbn [l_uri_len]. tie.
 Qed.
 
 Theorem provider_mhLenGuard_tie p len :
   small (MaxOperationHashLength p) ->
   mh_ok (limits_of p) len = negb (len =? 0) && negb (gen_provider_mhLenGuard p len).
 Proof.
-  intros Hs. unfold gen_provider_mhLenGuard, mh_ok, limits_of, to_int. cbn [l_hash_len]. rewrite small_int64 by assumption.
-  rewrite Z.gtb_ltb, Z.leb_antisym. reflexivity.
+  intros Hs. unfold gen_provider_mhLenGuard, mh_ok, limits_of. cbn [l_hash_len]. tie.
 Qed.
 
 (* readFromCAS: size before and after decompression *)
@@ -36,7 +34,7 @@ Theorem provider_size_guards_tie p {A} (max : Z) (r : raw A) :
   else f_parsed r.
 Proof.
   intros H1 H2. unfold read_file, gen_provider_sizeGuard, gen_provider_decompGuard, gen_provider_decompMax, limits_of, to_int.
-  cbn [l_factor]. rewrite !small_int64 by assumption. reflexivity.
+  cbn [l_factor]. tie.
 Qed.
 
 Theorem provider_param_table :
